@@ -27,11 +27,11 @@ PROBES = [(n, k) for n in NAMES for k in range(4)]
 def plan(tier, seed):
     if tier == 'quick':
         return {'n': 9000, 'deadline': 150,
-                'floor': {'distinct_nontrivial': 1500, 'loads_overwrite': 4000, 'loads_combine': 4000, 'registers': 2000,
+                'floor': {'registered_wrapped': 1, 'registered_partial': 1, 'loads_through_file_api': 1, 'distinct_nontrivial': 1500, 'loads_overwrite': 4000, 'loads_combine': 4000, 'registers': 2000,
                           'variadic_registers': 500, 'failing_loads': 1000, 'probe_sets_compared': 30000,
                           'keys_with_two_sources': 3000, 'scripts_with_cut': 2000}}
     return {'n': 220000 + exh_n(), 'deadline': 540, 'exh': exh_n(),
-            'floor': {'distinct_nontrivial': 20000, 'loads_overwrite': 60000, 'loads_combine': 60000, 'registers': 30000,
+            'floor': {'registered_wrapped': 1, 'registered_partial': 1, 'loads_through_file_api': 1, 'distinct_nontrivial': 20000, 'loads_overwrite': 60000, 'loads_combine': 60000, 'registers': 30000,
                       'failing_loads': 15000, 'probe_sets_compared': 500000, 'exhaustive_load_orders': exh_n()}}
 
 
@@ -208,6 +208,8 @@ def exh_history(idx):
 
 def judge(ctx, hist, c):
     d = H.compare_history(ctx['real'], hist, budgetA=40000, atom_mode=_atom_mode(hist, c))
+    for k_, n_ in H.take_stats().items():
+        c[k_] = c.get(k_, 0) + n_
     r = {'c': c, 'nt': False, 'key': H.normalise(hist)}
     if d['status'] == 'discard':
         r['discard'] = d['reason']
